@@ -25,6 +25,10 @@ type Case struct {
 	// StartHash: digest of the starting mesh when it came out of a library
 	// routine whose result depends on Go map order (see startMesh3).
 	StartHash string `json:"start_hash,omitempty"`
+	// Seed/Index identify a PRNG-driven case whose tapes could not be recorded (the
+	// process had to be killed mid-case); replay then regenerates it from the PRNG.
+	Seed  uint64 `json:"seed,omitempty"`
+	Index int    `json:"index,omitempty"`
 }
 
 type Finding struct{ Sig, Msg string }
